@@ -21,6 +21,7 @@ type c03Case struct {
 	A      *xast.Expr        `json:"a"`
 	B      *xast.Expr        `json:"b"`
 	C      *xast.Expr        `json:"c"`
+	Abbrev bool              `json:"abbrev,omitempty"` // render with abbreviated steps
 }
 
 var c03Union = reg("C03", "c03-union", checkC03)
@@ -89,7 +90,7 @@ func TestC03(t *testing.T) {
 		ctx := p.doc.All[rapid.IntRange(0, len(p.doc.All)-1).Draw(t, "ctx")]
 		abs := ctx == p.doc.Root
 		g := &xast.G{T: t, Env: xast.GenEnv{ElemNames: queryable(elems), AttrNames: queryable(attrs), PITargets: targets, Prefixes: prefixesOf(ns), NoAbs: !abs}}
-		c := &c03Case{Events: ev, Ctx: ctx.Ref(), NS: ns, A: genOverlap(g, abs), B: genOverlap(g, abs), C: genOverlap(g, abs)}
+		c := &c03Case{Events: ev, Ctx: ctx.Ref(), NS: ns, A: genOverlap(g, abs), B: genOverlap(g, abs), C: genOverlap(g, abs), Abbrev: rapid.Bool().Draw(t, "abbrev")}
 		c03Union.run(t, c)
 	})
 }
@@ -112,6 +113,9 @@ func checkC03(c *c03Case) error {
 	oos := false
 	run := func(x *xast.Expr) (xsel.NodeSet, string, error) {
 		text := xast.RenderMinimal(x)
+		if c.Abbrev {
+			text = xast.Render(x, xast.Abbrev, xast.Style{Abbrev: true})
+		}
 		if _, err := env.Eval(x, xref.Ctx{Node: ctx, Pos: 1, Size: 1}); err == xref.ErrOutOfScope {
 			oos = true
 		}
@@ -218,6 +222,9 @@ func checkC03(c *c03Case) error {
 	// count() through the library agrees
 	cnt := xast.Call("count", xast.Union(c.A, c.B))
 	g, err := buildExpr(xast.RenderMinimal(cnt))
+	if excluded("C08-slash-star-ambiguity") && slashStarAmbiguous(xast.RenderMinimal(cnt)) {
+		err = fmt.Errorf("skipped")
+	}
 	if err == nil {
 		if v, err := safeExec(p.loc.ToCur[ctx], g, set...); err != nil || v.Number() != float64(len(ab.ns)) {
 			return fmt.Errorf("%s = %v (err %v) but the union has %d nodes", xast.RenderMinimal(cnt), v, err, len(ab.ns))
